@@ -204,3 +204,12 @@ def _same_named(body, a, b_, name):
   na = body.slice_of([a], through_calls=True).var_names()
   nb = body.slice_of([b_], through_calls=True).var_names()
   return name in na and name in nb
+
+
+# sensitivity pack (thorough tier)
+MUTANTS = [{'name': 'rune check dropped', 'file': 'src/subcommand/wallet/offer/accept.rs', 'old': '    if let Some(runes) = wallet.get_runes_balances_in_output(&outgoing)? {\n      ensure! {\n        runes.is_empty(),\n        "outgoing input {} contains runes", outgoing,\n      }\n    }\n', 'new': '', 'expect': ('R24.1', 'Accept::run', 'rune')},
+           {'name': 'balance check weakened to >=', 'file': 'src/subcommand/wallet/offer/accept.rs', 'old': '      balance_change == self.amount.to_signed()?,', 'new': '      balance_change >= self.amount.to_signed()?,', 'expect': ('R24.1', 'Accept::run', 'simulate_transaction')}]
+
+
+# behaviour-preserving pack (thorough tier)
+NEUTRAL = [{'name': 'inscription comparison commuted', 'file': 'src/subcommand/wallet/offer/accept.rs', 'old': '      inscription == self.inscription,', 'new': '      self.inscription == inscription,'}]
